@@ -23,6 +23,9 @@ def main():
             rejected.append('accepted')
         except BaseException as e:
             rejected.append(type(e).__name__)
+    for e in req.get('earlier_installs', []):
+        # an earlier fork at another byte that used the same aliases: the later install takes them over
+        T.add_soft_fork(e['code'], e['name'], lambda tape, stack, cache: tape.read(1) and None, e.get('aliases', []))
     if kind:
         def fork(tape, stack, cache):
             """reads the count as NOP does, removes that many items, may raise"""
